@@ -42,6 +42,13 @@ use sux::utils::{FromIntoIterator, Sig, ToSig};
 use suxmon::gen::*;
 use suxmon::obs::*;
 
+/// Cases given up because the *original* panicked (constructor or query):
+/// reported as a note, never as a verdict.
+static ABANDONED: std::sync::atomic::AtomicU64 = std::sync::atomic::AtomicU64::new(0);
+fn abandoned() {
+    ABANDONED.fetch_add(1, std::sync::atomic::Ordering::Relaxed);
+}
+
 // ---------------------------------------------------------------------------
 // transcripts
 
@@ -146,10 +153,18 @@ impl Drop for ABuf {
     }
 }
 
+/// `--x-selftest 1`: corrupt the last payload byte of every serialization, to
+/// see the monitor fire (validation of the harness itself, never set by ./check).
+static SELFTEST: std::sync::atomic::AtomicBool = std::sync::atomic::AtomicBool::new(false);
+
 fn ser_bytes<T: Serialize>(x: &T) -> Vec<u8> {
     let mut v: Vec<u8> = Vec::new();
     let n = x.serialize(&mut v).unwrap_or_else(|e| panic!("serialize failed: {e}"));
     assert_eq!(n, v.len(), "serialize returned {} but wrote {} bytes", n, v.len());
+    if SELFTEST.load(std::sync::atomic::Ordering::Relaxed) {
+        let l = v.len();
+        v[l - 1 - (l - 1) / 4] ^= 0x10;
+    }
     v
 }
 
@@ -168,15 +183,6 @@ fn eps_like<'a, T: Deserialize>(_: &T, bytes: &'a [u8]) -> DeserType<'a, T> {
     T::deserialize_eps(bytes).unwrap_or_else(|e| panic!("deserialize_eps failed: {e}"))
 }
 
-fn full_as<T: Deserialize>(bytes: &[u8]) -> T {
-    let mut rd: &[u8] = bytes;
-    T::deserialize_full(&mut rd).unwrap_or_else(|e| panic!("deserialize_full (alternate backend type) failed: {e}"))
-}
-
-fn eps_as<'a, T: Deserialize>(bytes: &'a [u8]) -> DeserType<'a, T> {
-    T::deserialize_eps(bytes).unwrap_or_else(|e| panic!("deserialize_eps (alternate backend type) failed: {e}"))
-}
-
 fn load_full_like<T: Deserialize>(_: &T, p: &Path) -> T {
     T::load_full(p).unwrap_or_else(|e| panic!("load_full failed: {e}"))
 }
@@ -191,10 +197,6 @@ fn mmap_like<T: Deserialize>(_: &T, p: &Path, f: Flags) -> MemCase<DeserType<'st
 
 fn load_mmap_like<T: Deserialize>(_: &T, p: &Path, f: Flags) -> MemCase<DeserType<'static, T>> {
     T::load_mmap(p, f).unwrap_or_else(|e| panic!("load_mmap failed: {e}"))
-}
-
-fn mmap_as<T: Deserialize>(p: &Path, f: Flags) -> MemCase<DeserType<'static, T>> {
-    T::mmap(p, f).unwrap_or_else(|e| panic!("mmap (alternate backend type) failed: {e}"))
 }
 
 fn pick_flags(rng: &mut SmallRng) -> Flags {
@@ -291,18 +293,21 @@ fn cmp_bytes(c: &mut Case, path: &str, want: &[u8], got: &[u8], what: &str) {
     }
 }
 
-/// The whole round trip of one instance. `$alt` is an optional list of types
-/// (same structure, other owned backend) the bytes are also loaded as.
-/// Evaluates to `true` when every path of the mode ran and a verdict exists.
+/// The whole round trip of one instance. `$body` is the query script run on
+/// owned values, `$ebody` the (possibly shorter) script run on borrowed views.
+/// (The `[...]` list is reserved and must be empty: ε-serde gives `Vec`- and
+/// `Box`-backed instances different type hashes, so there is no loading "as
+/// the other backend".) Evaluates to `true` when every path of the mode ran and a verdict exists.
 macro_rules! roundtrip {
-    ($c:ident, $mode:expr, $what:expr, $orig:expr, [$($alt:ty),*], |$t:ident, $x:ident| $body:block) => {
-        roundtrip!($c, $mode, $what, $orig, [$($alt),*], |$t, $x| $body, eps $body)
+    ($c:ident, $mode:expr, $what:expr, $orig:expr, [], |$t:ident, $x:ident| $body:block) => {
+        roundtrip!($c, $mode, $what, $orig, [], |$t, $x| $body, eps $body)
     };
-    ($c:ident, $mode:expr, $what:expr, $orig:expr, [$($alt:ty),*], |$t:ident, $x:ident| $body:block, eps $ebody:block) => {{
+    ($c:ident, $mode:expr, $what:expr, $orig:expr, [], |$t:ident, $x:ident| $body:block, eps $ebody:block) => {{
         let orig = $orig;
         let mode: Mode = $mode;
         let what: &str = $what;
         let mut complete = false;
+        $c.set_cell(format!("{}|{}|{}", $c.variant, $c.stratum, mode.op()));
         // transcripts of the original (full script, and the part of it the
         // borrowed view supports); its panics are not C15's business
         let want = catch(|| {
@@ -349,13 +354,6 @@ macro_rules! roundtrip {
                             let buf = ABuf::new(&bytes, &tail);
                             ok &= observe!($c, "deserialize_eps_tail", wante, what, eps_like(&orig, buf.bytes()), |$t, $x| $ebody);
                         }
-                        $(
-                            ok &= observe!($c, "deserialize_full_as_alt", want, what, full_as::<$alt>(&bytes), |$t, $x| $body);
-                            {
-                                let buf = ABuf::new(&bytes, &[]);
-                                ok &= observe!($c, "deserialize_eps_as_alt", wante, what, eps_as::<$alt>(buf.bytes()), |$t, $x| $ebody);
-                            }
-                        )*
                     }
                     Mode::File => {
                         let dir = tempfile::tempdir().expect("tempdir");
@@ -370,9 +368,6 @@ macro_rules! roundtrip {
                             let f2 = pick_flags($c.rng());
                             ok &= observe_case!($c, "mmap", wante, what, mmap_like(&orig, path, f1), |$t, $x| $ebody);
                             ok &= observe_case!($c, "load_mmap", wante, what, load_mmap_like(&orig, path, f2), |$t, $x| $ebody);
-                            $(
-                                ok &= observe_case!($c, "mmap_as_alt", wante, what, mmap_as::<$alt>(path, f1), |$t, $x| $ebody);
-                            )*
                         } else {
                             ok = false;
                         }
@@ -380,6 +375,8 @@ macro_rules! roundtrip {
                 }
                 complete = ok;
             }
+        } else {
+            abandoned();
         }
         complete
     }};
@@ -632,10 +629,10 @@ fn bits_nontrivial(bits: &[bool]) -> bool {
 /// `$ctor` builds the structure from `$bv: BitVec<Vec<usize>>`; `$cap` lists
 /// the generic transcript functions the structure supports.
 macro_rules! bits_variant {
-    ($ctx:ident, $name:expr, [$($alt:ty),*], |$bv:ident| $ctor:expr, [$($cap:ident),*]) => {
-        bits_variant!($ctx, $name, [$($alt),*], |$bv| $ctor, [$($cap),*], eps [$($cap),*])
+    ($ctx:ident, $name:expr, [], |$bv:ident| $ctor:expr, [$($cap:ident),*]) => {
+        bits_variant!($ctx, $name, [], |$bv| $ctor, [$($cap),*], eps [$($cap),*])
     };
-    ($ctx:ident, $name:expr, [$($alt:ty),*], |$bv:ident| $ctor:expr, [$($cap:ident),*], eps [$($ecap:ident),*]) => {
+    ($ctx:ident, $name:expr, [], |$bv:ident| $ctor:expr, [$($cap:ident),*], eps [$($ecap:ident),*]) => {
         for kind in bit_kinds(&$ctx) {
             for &mode in modes(&$ctx) {
                 let small = $ctx.small;
@@ -643,9 +640,9 @@ macro_rules! bits_variant {
                     let (bits, $bv, d) = gen_bitcase(c.rng(), kind, small);
                     let q = BitQ::new(c.rng(), &bits, if small { 64 } else { 1500 }, if small { 20 } else { 1200 });
                     c.describe(|| d.clone());
-                    let Ok(orig) = catch(move || $ctor) else { return };
+                    let Ok(orig) = catch(move || $ctor) else { abandoned(); return };
                     let what = format!("{} over {} bits ({} ones), stratum {}", $name, q.len, q.n1, kind.name());
-                    let done = roundtrip!(c, mode, &what, orig, [$($alt),*], |t, x| {
+                    let done = roundtrip!(c, mode, &what, orig, [], |t, x| {
                         $( $cap(t, x, &q); )*
                     }, eps {
                         $( $ecap(t, x, &q); )*
@@ -838,7 +835,7 @@ macro_rules! bfv_cases {
                             }
                             v
                         });
-                        let Ok(v) = built else { return };
+                        let Ok(v) = built else { abandoned(); return };
                         let mut idx = sample(c.rng(), len, 2500, 800);
                         idx.dedup();
                         let from: Vec<usize> = if len == 0 { vec![0] } else { vec![0, len / 2, len - 1, len, c.rng().random_range(0..=len)] };
@@ -1015,7 +1012,7 @@ macro_rules! ef_variant {
                         let $e = b.build();
                         $fin
                     });
-                    let Ok(orig) = built else { return };
+                    let Ok(orig) = built else { abandoned(); return };
                     let what = format!("{} n={} u={} stratum {}", $name, xs.len(), u, st);
                     let done = roundtrip!(c, mode, &what, orig, [], |t, x| {
                         $( $cap(t, x, &q); )*
@@ -1194,7 +1191,7 @@ fn rcl_family(ctx: &mut Ctx) {
                     }
                     b.build()
                 });
-                let Ok(orig) = built else { return };
+                let Ok(orig) = built else { abandoned(); return };
                 let idx = sample(c.rng(), n, 700, 100);
                 let from: Vec<usize> = if n == 0 { vec![0] } else { vec![0, n / 2, n - 1, n, (n / k) * k, c.rng().random_range(0..=n)] };
                 let mut probes: Vec<String> = Vec::new();
@@ -1224,12 +1221,232 @@ fn rcl_family(ctx: &mut Ctx) {
     }
 }
 
+// ---------------------------------------------------------------------------
+// static functions and filters
+
+fn t_vfunc<T, K, W, D, S, E>(t: &mut Tr, f: &VFunc<T, W, D, S, E>, keys: &[K], sigs: &[S])
+where
+    T: ?Sized + ToSig<S>,
+    K: std::borrow::Borrow<T>,
+    W: ZeroCopy + Word + To128,
+    D: BitFieldSlice<W>,
+    S: Sig,
+    E: ShardEdge<S, 3>,
+{
+    t.u("len", 0, f.len());
+    t.b("is_empty", 0, f.is_empty());
+    for (i, k) in keys.iter().enumerate() {
+        t.w("get", i, f.get(k.borrow()).to128());
+    }
+    for (i, &s) in sigs.iter().enumerate() {
+        t.w("get_by_sig", i, f.get_by_sig(s).to128());
+    }
+}
+
+fn t_vfilter<T, K, W, D, S, E>(t: &mut Tr, f: &VFilter<W, VFunc<T, W, D, S, E>>, keys: &[K], sigs: &[S])
+where
+    T: ?Sized + ToSig<S>,
+    K: std::borrow::Borrow<T>,
+    W: ZeroCopy + Word + To128,
+    D: BitFieldSlice<W>,
+    S: Sig,
+    E: ShardEdge<S, 3>,
+    u64: common_traits::CastableInto<W>,
+{
+    t.u("len", 0, f.len());
+    t.b("is_empty", 0, f.is_empty());
+    t.u("hash_bits", 0, f.hash_bits() as usize);
+    for (i, k) in keys.iter().enumerate() {
+        t.b("contains", i, f.contains(k.borrow()));
+        t.w("get", i, f.get(k.borrow()).to128());
+        t.b("index", i, f[k.borrow()]);
+    }
+    for (i, &s) in sigs.iter().enumerate() {
+        t.b("contains_by_sig", i, f.contains_by_sig(s));
+        t.w("get_by_sig", i, f.get_by_sig(s).to128());
+    }
+}
+
+trait RandSig: Sized {
+    fn rand(rng: &mut SmallRng) -> Self;
+}
+impl RandSig for [u64; 1] {
+    fn rand(rng: &mut SmallRng) -> Self {
+        [rng.next_u64()]
+    }
+}
+impl RandSig for [u64; 2] {
+    fn rand(rng: &mut SmallRng) -> Self {
+        [rng.next_u64(), rng.next_u64()]
+    }
+}
+
+const VF_STRATA: &[&str] = &["n=0", "n=1", "tiny", "n~100", "n~1000", "n~10000"];
+
+fn vf_n(rng: &mut SmallRng, st: &str) -> usize {
+    match st {
+        "n=0" => 0,
+        "n=1" => 1,
+        "tiny" => rng.random_range(2..20),
+        "n~100" => rng.random_range(98..104),
+        "n~1000" => rng.random_range(500..3000),
+        "n~10000" => rng.random_range(8000..20000),
+        // the default logic (and the full-signature one) use 2 shards from
+        // 100 000 keys and 4 from 200 000
+        "sharded" => [100_000usize, 100_001, 137_000, 200_003][rng.random_range(0..4)],
+        _ => unreachable!(),
+    }
+}
+
+fn usize_keys(rng: &mut SmallRng, n: usize) -> Vec<usize> {
+    let dense = rng.random_bool(0.3);
+    let mut k: Vec<usize> = if dense { (0..n).collect() } else { (0..n + n / 8 + 2).map(|_| rng.next_u64() as usize).collect() };
+    k.sort_unstable();
+    k.dedup();
+    // shuffle a bit so that key order is not sorted
+    for i in (1..k.len()).rev() {
+        let j = rng.random_range(0..=i);
+        k.swap(i, j);
+    }
+    k.truncate(n);
+    k
+}
+
+fn string_keys(rng: &mut SmallRng, n: usize) -> Vec<String> {
+    let salt = rng.next_u32();
+    (0..n).map(|i| format!("key-{:x}-{}", salt, i)).collect()
+}
+
+/// Queried keys: every key when few, a sample otherwise, plus as many
+/// non-keys (a function returns an arbitrary but fixed value on those).
+fn probe_keys<K: Clone>(rng: &mut SmallRng, keys: &[K], others: Vec<K>) -> Vec<K> {
+    let mut v: Vec<K> = if keys.len() <= 3000 { keys.to_vec() } else { (0..3000).map(|_| keys[rng.random_range(0..keys.len())].clone()).collect() };
+    v.extend(others);
+    v
+}
+
+/// `$kind` = func | filter; `$keys` = usize | string.
+macro_rules! vf_variant {
+    ($ctx:ident, $name:expr, $strata:expr, func, $keys:ident, $W:ty, $D:ty, $S:ty, $E:ty) => {
+        for &st in $strata {
+            for &mode in modes(&$ctx) {
+                $ctx.case($name, st, mode.op(), |c| {
+                    let n = vf_n(c.rng(), st);
+                    let keys = vf_variant!(@keys $keys, c, n);
+                    let maxv: u128 = [1u128, 2, 255, 1000, <$W>::MAX as u128][c.rng().random_range(0..5)].min(<$W>::MAX as u128);
+                    let vals: Vec<$W> = (0..n).map(|_| (c.rng().next_u64() as u128 % (maxv + 1)) as $W).collect();
+                    c.describe(|| format!("n={} keys={:?} values={:?}", n, &keys[..n.min(50)], &vals[..n.min(50)]));
+                    let built = catch(|| {
+                        VBuilder::<$W, $D, $S, $E>::default()
+                            .expected_num_keys(n)
+                            .try_build_func(FromIntoIterator::from(keys.clone()), FromIntoIterator::from(vals.clone()), dsi_progress_logger::no_logging![])
+                    });
+                    let Ok(Ok(orig)) = built else { abandoned(); return };
+                    let others = vf_variant!(@keys $keys, c, 300);
+                    let probes = probe_keys(c.rng(), &keys, others);
+                    let sigs: Vec<$S> = (0..500).map(|_| <$S as RandSig>::rand(c.rng())).collect();
+                    let what = format!("{} over {} keys, stratum {}", $name, n, st);
+                    let done = roundtrip!(c, mode, &what, orig, [], |t, x| {
+                        t_vfunc(t, x, &probes, &sigs);
+                    });
+                    if done && n >= 2 && vals.iter().any(|&v| v != vals[0]) {
+                        c.nontrivial();
+                    }
+                });
+            }
+        }
+    };
+    ($ctx:ident, $name:expr, $strata:expr, filter, $keys:ident, $W:ty, $D:ty, $S:ty, $E:ty $(, bits $fb:expr)?) => {
+        for &st in $strata {
+            for &mode in modes(&$ctx) {
+                $ctx.case($name, st, mode.op(), |c| {
+                    let n = vf_n(c.rng(), st);
+                    let keys = vf_variant!(@keys $keys, c, n);
+                    #[allow(unused_mut, unused_assignments)]
+                    let mut fbits = <$W>::BITS as usize;
+                    $( fbits = $fb(c.rng()); )?
+                    c.describe(|| format!("n={} filter_bits={} keys={:?}", n, fbits, &keys[..n.min(50)]));
+                    let built = catch(|| {
+                        let b = VBuilder::<$W, $D, $S, $E>::default().expected_num_keys(n);
+                        vf_variant!(@filter b, keys, fbits $(, $fb)?)
+                    });
+                    let Ok(Ok(orig)) = built else { abandoned(); return };
+                    let others = vf_variant!(@keys $keys, c, 1500);
+                    let probes = probe_keys(c.rng(), &keys, others);
+                    let sigs: Vec<$S> = (0..500).map(|_| <$S as RandSig>::rand(c.rng())).collect();
+                    let what = format!("{} ({} hash bits) over {} keys, stratum {}", $name, fbits, n, st);
+                    let done = roundtrip!(c, mode, &what, orig, [], |t, x| {
+                        t_vfilter(t, x, &probes, &sigs);
+                    });
+                    if done && n >= 2 {
+                        c.nontrivial();
+                    }
+                });
+            }
+        }
+    };
+    (@keys usize, $c:ident, $n:expr) => { usize_keys($c.rng(), $n) };
+    (@keys string, $c:ident, $n:expr) => { string_keys($c.rng(), $n) };
+    (@filter $b:ident, $keys:ident, $fbits:ident) => { $b.try_build_filter(FromIntoIterator::from($keys.clone()), dsi_progress_logger::no_logging![]) };
+    (@filter $b:ident, $keys:ident, $fbits:ident, $fb:expr) => { $b.try_build_filter(FromIntoIterator::from($keys.clone()), $fbits, dsi_progress_logger::no_logging![]) };
+}
+
+fn vf_family(ctx: &mut Ctx) {
+    if ctx.small {
+        return; // VBuilder cannot run under Miri (thread priorities)
+    }
+    let all: &[&str] = VF_STRATA;
+    let sharded: &[&str] = &["sharded"];
+    let some_bits = |rng: &mut SmallRng| -> usize { [1usize, 2, 7, 8, 13, 32, 63, 64][rng.random_range(0..8)] };
+    type BFV = BitFieldVec<usize>;
+    // functions
+    vf_variant!(ctx, "VFunc<usize,Box<[usize]>,FuseLge3Shards>", all, func, usize, usize, Box<[usize]>, [u64; 2], FuseLge3Shards);
+    vf_variant!(ctx, "VFunc<usize,BitFieldVec,FuseLge3Shards>", all, func, usize, usize, BFV, [u64; 2], FuseLge3Shards);
+    vf_variant!(ctx, "VFunc<usize,Box<[usize]>,FuseLge3NoShards,[u64;2]>", all, func, usize, usize, Box<[usize]>, [u64; 2], FuseLge3NoShards);
+    vf_variant!(ctx, "VFunc<usize,BitFieldVec,FuseLge3NoShards,[u64;2]>", all, func, usize, usize, BFV, [u64; 2], FuseLge3NoShards);
+    vf_variant!(ctx, "VFunc<usize,Box<[usize]>,FuseLge3NoShards,[u64;1]>", all, func, usize, usize, Box<[usize]>, [u64; 1], FuseLge3NoShards);
+    vf_variant!(ctx, "VFunc<usize,BitFieldVec,FuseLge3NoShards,[u64;1]>", all, func, usize, usize, BFV, [u64; 1], FuseLge3NoShards);
+    vf_variant!(ctx, "VFunc<usize,Box<[usize]>,FuseLge3FullSigs>", all, func, usize, usize, Box<[usize]>, [u64; 2], FuseLge3FullSigs);
+    vf_variant!(ctx, "VFunc<usize,BitFieldVec,FuseLge3FullSigs>", all, func, usize, usize, BFV, [u64; 2], FuseLge3FullSigs);
+    vf_variant!(ctx, "VFunc<String,Box<[u32]>,FuseLge3Shards>", all, func, string, u32, Box<[u32]>, [u64; 2], FuseLge3Shards);
+    vf_variant!(ctx, "VFunc<String,BitFieldVec<u64>,FuseLge3NoShards,[u64;1]>", all, func, string, u64, BitFieldVec<u64>, [u64; 1], FuseLge3NoShards);
+    // filters
+    vf_variant!(ctx, "VFilter<u8,Box<[u8]>,FuseLge3Shards>", all, filter, usize, u8, Box<[u8]>, [u64; 2], FuseLge3Shards);
+    vf_variant!(ctx, "VFilter<usize,BitFieldVec,FuseLge3Shards>", all, filter, usize, usize, BFV, [u64; 2], FuseLge3Shards, bits some_bits);
+    vf_variant!(ctx, "VFilter<u16,Box<[u16]>,FuseLge3NoShards,[u64;2]>", all, filter, usize, u16, Box<[u16]>, [u64; 2], FuseLge3NoShards);
+    vf_variant!(ctx, "VFilter<usize,BitFieldVec,FuseLge3NoShards,[u64;2]>", all, filter, usize, usize, BFV, [u64; 2], FuseLge3NoShards, bits some_bits);
+    vf_variant!(ctx, "VFilter<u8,Box<[u8]>,FuseLge3NoShards,[u64;1]>", all, filter, usize, u8, Box<[u8]>, [u64; 1], FuseLge3NoShards);
+    vf_variant!(ctx, "VFilter<usize,BitFieldVec,FuseLge3NoShards,[u64;1]>", all, filter, usize, usize, BFV, [u64; 1], FuseLge3NoShards, bits some_bits);
+    vf_variant!(ctx, "VFilter<u32,Box<[u32]>,FuseLge3FullSigs>", all, filter, usize, u32, Box<[u32]>, [u64; 2], FuseLge3FullSigs);
+    vf_variant!(ctx, "VFilter<usize,BitFieldVec,FuseLge3FullSigs>", all, filter, usize, usize, BFV, [u64; 2], FuseLge3FullSigs, bits some_bits);
+    vf_variant!(ctx, "VFilter<String,Box<[u8]>,FuseLge3Shards>", all, filter, string, u8, Box<[u8]>, [u64; 2], FuseLge3Shards);
+    // several shards: the shard parameters must survive the round trip
+    vf_variant!(ctx, "VFunc<usize,BitFieldVec,FuseLge3Shards>", sharded, func, usize, usize, BFV, [u64; 2], FuseLge3Shards);
+    vf_variant!(ctx, "VFunc<usize,Box<[usize]>,FuseLge3FullSigs>", sharded, func, usize, usize, Box<[usize]>, [u64; 2], FuseLge3FullSigs);
+    vf_variant!(ctx, "VFilter<u8,Box<[u8]>,FuseLge3Shards>", sharded, filter, usize, u8, Box<[u8]>, [u64; 2], FuseLge3Shards);
+    vf_variant!(ctx, "VFilter<usize,BitFieldVec,FuseLge3FullSigs>", sharded, filter, usize, usize, BFV, [u64; 2], FuseLge3FullSigs, bits some_bits);
+}
+
 fn main() {
     let mut ctx = Ctx::from_args("C15");
     ctx.set_hang_limit(300);
-    bit_family(&mut ctx);
-    bfv_family(&mut ctx);
-    ef_family(&mut ctx);
-    rcl_family(&mut ctx);
+    if ctx.arg("selftest").is_some() {
+        SELFTEST.store(true, std::sync::atomic::Ordering::Relaxed);
+    }
+    // Every round runs every (variant, stratum, mode) once; strata are
+    // classes, so each round draws new lengths, contents and queries.
+    let rounds = ctx.scale(1, 6, 60);
+    for round in 0..rounds {
+        bit_family(&mut ctx);
+        bfv_family(&mut ctx);
+        ef_family(&mut ctx);
+        rcl_family(&mut ctx);
+        vf_family(&mut ctx);
+        if round > 0 && ctx.out_of_time() {
+            break;
+        }
+    }
+    let ab = ABANDONED.load(std::sync::atomic::Ordering::Relaxed);
+    ctx.note("abandoned_because_original_panicked", &ab.to_string());
     ctx.finish();
 }
